@@ -314,6 +314,9 @@ func (P *Program) LemmaObligations(prop string) ([]*Obligation, error) {
 		s.entry = &State{Guard: "true", Maps: map[string]string{}}
 		env := s.newEnv(nil)
 		env.st, env.old = s.entry, s.entry
+		for _, r := range lm.Reveals {
+			s.revealed[r] = true
+		}
 		for _, u := range lm.Uses {
 			s.useAxiomNoTop(u)
 		}
